@@ -50,10 +50,9 @@ class _AddressList(Writeable):
         if self.headers:
             addresses: list[Address] = []
             for header in self.headers:
-                if isinstance(header, SingleAddressHeader):
-                    addresses.append(header.address)
-                else:
-                    addresses.extend(header.addresses)
+                # SingleAddressHeader.address raises unless the value holds
+                # exactly one address, e.g. an empty ``Sender:``
+                addresses.extend(header.addresses)
             return List([self._parse(address)
                          for address in addresses])
         else:
